@@ -45,6 +45,13 @@ func (s *srcFile) fn(recv, name string) *ast.FuncDecl {
 			if st, ok := t.(*ast.StarExpr); ok {
 				t = st.X
 			}
+			// generic receivers: T[K, V]
+			switch g := t.(type) {
+			case *ast.IndexExpr:
+				t = g.X
+			case *ast.IndexListExpr:
+				t = g.X
+			}
 			if id, ok := t.(*ast.Ident); ok && id.Name == recv {
 				return fd
 			}
@@ -448,102 +455,108 @@ func genFacts(w *bufio.Writer, repo string) error {
 	ws := events(writerGo.fn("writer", "Sync").Body)
 	facts["syncLogThenIndex"] = firstIdx(ws, "call:w.messages.Sync") >= 0 && firstIdx(ws, "call:w.messages.Sync") < firstIdx(ws, "call:w.items.Sync")
 
-	// blocking wrapper (C18): Wait(ctx, offset) first and its error returned; then exactly the
-	// plain call with the caller's arguments; Publish notifies with the offset Publish returned;
+	// blocking wrappers (C18), plain and typed: Wait(ctx, offset) first and its error returned; then exactly
+	// the plain call with the caller's arguments; Publish notifies with the offset Publish returned;
 	// Close closes the notifier first; the notifier starts at NextOffset.
-	blkGo, err := parseGo(filepath.Join(repo, "log_blocking.go"))
-	if err != nil {
-		return err
-	}
-	callArgs := func(body ast.Node, fun string) []string {
-		var out []string
-		found := false
-		ast.Inspect(body, func(n ast.Node) bool {
-			if c, ok := n.(*ast.CallExpr); ok && !found && exprStr(c.Fun) == fun {
-				found = true
-				for _, a := range c.Args {
-					out = append(out, exprStr(a))
+	for _, bw0 := range []struct{ file, recv, inner, wrap, prefix, byKeyArgs string }{
+		{"log_blocking.go", "blockingLog", "l.Log", "WrapBlocking", "blocking", "l.ConsumeByKey key offset maxCount"},
+		{"typed_blocking.go", "tlogBlocking", "l.TLog", "WrapTBlocking", "typedBlocking", "l.ConsumeByKey key empty offset maxCount"},
+	} {
+		blkGo, err := parseGo(filepath.Join(repo, bw0.file))
+		if err != nil {
+			return err
+		}
+		callArgs := func(body ast.Node, fun string) []string {
+			var out []string
+			found := false
+			ast.Inspect(body, func(n ast.Node) bool {
+				if c, ok := n.(*ast.CallExpr); ok && !found && exprStr(c.Fun) == fun {
+					found = true
+					for _, a := range c.Args {
+						out = append(out, exprStr(a))
+					}
+				}
+				return true
+			})
+			if !found {
+				return nil
+			}
+			return append([]string{fun}, out...)
+		}
+		bw := true
+		for _, c := range []struct{ fn, inner, args string }{
+			{"ConsumeBlocking", "l.Consume", "l.Consume offset maxCount"},
+			{"ConsumeByKeyBlocking", "l.ConsumeByKey", bw0.byKeyArgs},
+		} {
+			fd := blkGo.fn(bw0.recv, c.fn)
+			if err := need(fd, c.fn); err != nil {
+				return err
+			}
+			evs := events(fd.Body)
+			var calls []string
+			for _, e := range evs {
+				if strings.HasPrefix(e.what, "call:") {
+					calls = append(calls, e.what[5:])
+				}
+			}
+			ok := len(calls) == 2 && calls[0] == "l.notify.Wait" && calls[1] == c.inner &&
+				strings.Join(callArgs(fd.Body, "l.notify.Wait"), " ") == "l.notify.Wait ctx offset" &&
+				strings.Join(callArgs(fd.Body, c.inner), " ") == c.args
+			// shape: `if err := Wait(..); err != nil { return …, err }` then `return inner(..)`
+			if ok && len(fd.Body.List) == 2 {
+				ifs, isIf := fd.Body.List[0].(*ast.IfStmt)
+				ret, isRet := fd.Body.List[1].(*ast.ReturnStmt)
+				ok = isIf && isRet && ifs.Else == nil && len(ret.Results) == 1 && len(ifs.Body.List) == 1
+				if ok {
+					be, isBe := ifs.Cond.(*ast.BinaryExpr)
+					ok = isBe && exprStr(be.X) == "err" && be.Op == token.NEQ && exprStr(be.Y) == "nil"
+					r, isR := ifs.Body.List[0].(*ast.ReturnStmt)
+					ok = ok && isR && len(r.Results) == 3 && exprStr(r.Results[2]) == "err" && exprStr(r.Results[1]) == "nil"
+				}
+			} else {
+				ok = false
+			}
+			bw = bw && ok
+		}
+		facts[bw0.prefix+"WaitThenRead"] = bw
+		bp := blkGo.fn(bw0.recv, "Publish")
+		if err := need(bp, bw0.recv+".Publish"); err != nil {
+			return err
+		}
+		bpe := events(bp.Body)
+		pubArg := ""
+		ast.Inspect(bp.Body, func(n ast.Node) bool {
+			if as, ok := n.(*ast.AssignStmt); ok && len(as.Rhs) == 1 && len(as.Lhs) == 2 {
+				if c, ok := as.Rhs[0].(*ast.CallExpr); ok && exprStr(c.Fun) == bw0.inner+".Publish" {
+					pubArg = exprStr(as.Lhs[0])
 				}
 			}
 			return true
 		})
-		if !found {
-			return nil
-		}
-		return append([]string{fun}, out...)
-	}
-	bw := true
-	for _, c := range []struct{ fn, inner, args string }{
-		{"ConsumeBlocking", "l.Consume", "l.Consume offset maxCount"},
-		{"ConsumeByKeyBlocking", "l.ConsumeByKey", "l.ConsumeByKey key offset maxCount"},
-	} {
-		fd := blkGo.fn("blockingLog", c.fn)
-		if err := need(fd, c.fn); err != nil {
+		facts[bw0.prefix+"PublishThenSet"] = firstIdx(bpe, "call:"+bw0.inner+".Publish") >= 0 && firstIdx(bpe, "call:"+bw0.inner+".Publish") < firstIdx(bpe, "call:l.notify.Set") &&
+			pubArg != "" && strings.Join(callArgs(bp.Body, "l.notify.Set"), " ") == "l.notify.Set "+pubArg
+		bc := blkGo.fn(bw0.recv, "Close")
+		if err := need(bc, bw0.recv+".Close"); err != nil {
 			return err
 		}
-		evs := events(fd.Body)
-		var calls []string
-		for _, e := range evs {
-			if strings.HasPrefix(e.what, "call:") {
-				calls = append(calls, e.what[5:])
-			}
+		bce := events(bc.Body)
+		facts[bw0.prefix+"CloseNotifierFirst"] = firstIdx(bce, "call:l.notify.Close") >= 0 && firstIdx(bce, "call:l.notify.Close") < firstIdx(bce, "call:"+bw0.inner+".Close")
+		wb := blkGo.fn("", bw0.wrap)
+		if err := need(wb, bw0.wrap); err != nil {
+			return err
 		}
-		ok := len(calls) == 2 && calls[0] == "l.notify.Wait" && calls[1] == c.inner &&
-			strings.Join(callArgs(fd.Body, "l.notify.Wait"), " ") == "l.notify.Wait ctx offset" &&
-			strings.Join(callArgs(fd.Body, c.inner), " ") == c.args
-		// shape: `if err := Wait(..); err != nil { return …, err }` then `return inner(..)`
-		if ok && len(fd.Body.List) == 2 {
-			ifs, isIf := fd.Body.List[0].(*ast.IfStmt)
-			ret, isRet := fd.Body.List[1].(*ast.ReturnStmt)
-			ok = isIf && isRet && ifs.Else == nil && len(ret.Results) == 1 && len(ifs.Body.List) == 1
-			if ok {
-				be, isBe := ifs.Cond.(*ast.BinaryExpr)
-				ok = isBe && exprStr(be.X) == "err" && be.Op == token.NEQ && exprStr(be.Y) == "nil"
-				r, isR := ifs.Body.List[0].(*ast.ReturnStmt)
-				ok = ok && isR && len(r.Results) == 3 && exprStr(r.Results[2]) == "err" && exprStr(r.Results[1]) == "nil"
+		nextVar := ""
+		ast.Inspect(wb.Body, func(n ast.Node) bool {
+			if as, ok := n.(*ast.AssignStmt); ok && len(as.Rhs) == 1 && len(as.Lhs) == 2 {
+				if c, ok := as.Rhs[0].(*ast.CallExpr); ok && exprStr(c.Fun) == "l.NextOffset" {
+					nextVar = exprStr(as.Lhs[0])
+				}
 			}
-		} else {
-			ok = false
-		}
-		bw = bw && ok
+			return true
+		})
+		facts[bw0.prefix+"StartsAtNextOffset"] = nextVar != "" && strings.Join(callArgs(wb.Body, "notify.NewOffset"), " ") == "notify.NewOffset "+nextVar
+
 	}
-	facts["blockingWaitThenRead"] = bw
-	bp := blkGo.fn("blockingLog", "Publish")
-	if err := need(bp, "blockingLog.Publish"); err != nil {
-		return err
-	}
-	bpe := events(bp.Body)
-	pubArg := ""
-	ast.Inspect(bp.Body, func(n ast.Node) bool {
-		if as, ok := n.(*ast.AssignStmt); ok && len(as.Rhs) == 1 && len(as.Lhs) == 2 {
-			if c, ok := as.Rhs[0].(*ast.CallExpr); ok && exprStr(c.Fun) == "l.Log.Publish" {
-				pubArg = exprStr(as.Lhs[0])
-			}
-		}
-		return true
-	})
-	facts["blockingPublishThenSet"] = firstIdx(bpe, "call:l.Log.Publish") >= 0 && firstIdx(bpe, "call:l.Log.Publish") < firstIdx(bpe, "call:l.notify.Set") &&
-		pubArg != "" && strings.Join(callArgs(bp.Body, "l.notify.Set"), " ") == "l.notify.Set "+pubArg
-	bc := blkGo.fn("blockingLog", "Close")
-	if err := need(bc, "blockingLog.Close"); err != nil {
-		return err
-	}
-	bce := events(bc.Body)
-	facts["blockingCloseNotifierFirst"] = firstIdx(bce, "call:l.notify.Close") >= 0 && firstIdx(bce, "call:l.notify.Close") < firstIdx(bce, "call:l.Log.Close")
-	wb := blkGo.fn("", "WrapBlocking")
-	if err := need(wb, "WrapBlocking"); err != nil {
-		return err
-	}
-	nextVar := ""
-	ast.Inspect(wb.Body, func(n ast.Node) bool {
-		if as, ok := n.(*ast.AssignStmt); ok && len(as.Rhs) == 1 && len(as.Lhs) == 2 {
-			if c, ok := as.Rhs[0].(*ast.CallExpr); ok && exprStr(c.Fun) == "l.NextOffset" {
-				nextVar = exprStr(as.Lhs[0])
-			}
-		}
-		return true
-	})
-	facts["blockingStartsAtNextOffset"] = nextVar != "" && strings.Join(callArgs(wb.Body, "notify.NewOffset"), " ") == "notify.NewOffset "+nextVar
 
 	names := make([]string, 0, len(facts))
 	for k := range facts {
